@@ -71,6 +71,8 @@ def ev(t, ties=None):
                 ties.append(t)
             return +PI
         return w
+    if h == "pow":
+        return mpmath.power(ev(t[1], ties), mpf(t[2][1]) / mpf(t[2][2]))
     a = ev(t[1], ties)
     b = ev(t[2], ties)
     if h == "add":
